@@ -1339,13 +1339,16 @@ def _generators(vk, fam):
     elif fam == "merge-rounding":
         vk.real(fm.merge_duplicate_points)
         vk.real(fem.MeshContainer.merge_duplicate_points)
-        B = Bounded(vk, "merge_duplicate_points(decimals): corners move <= half a rounding unit (not at all for None), merged points are a rounding unit apart, coincident points are merged, no unused points", "two adjacent rectangles, n <= 4 per axis, decimals in {None, 3, 8}, perturbation in {0, 1e-10, 2e-5}")
-        for n1 in itertools.product(N, repeat=2):
-            for n2x in N:
-                for dec in (None, 3, 8):
-                    for delta in (0.0, 1e-10, 2e-5):
-                        r1 = fem.Rectangle(a=(0, 0), b=(1, 1), n=n1)
-                        r2 = fem.Rectangle(a=(1, 0), b=(2.5, 1), n=(n2x, n1[1]))
+        B = Bounded(vk, "merge_duplicate_points(decimals): corners move <= half a rounding unit (not at all for None), merged points are a rounding unit apart, coincident points are merged, no unused points", "two adjacent rectangles, n <= 4 per axis, decimals in {None, 3, 8} (unit geometry, perturbation in {0, 1e-10, 2e-5}) and {0, 1} (geometry x10, perturbation in {0, 1e-3})")
+        # (scale of the geometry, admissible decimals at that scale, perturbations); decimals = 0 / 1 round to
+        # integers / tenths, exercised on a geometry ten times larger so that only near-duplicates collapse
+        combos = [(sc, dec, delta, n1, n2x) for sc, decs, deltas in ((1.0, (None, 3, 8), (0.0, 1e-10, 2e-5)), (10.0, (0, 1), (0.0, 1e-3))) for n1 in itertools.product(N, repeat=2) for n2x in N for dec in decs for delta in deltas]
+        for sc, dec, delta, n1, n2x in combos:
+            for _once in (0,):
+                for _once2 in (0,):
+                    for _once3 in (0,):
+                        r1 = fem.Rectangle(a=(0, 0), b=(sc, sc), n=n1)
+                        r2 = fem.Rectangle(a=(sc, 0), b=(2.5 * sc, sc), n=(n2x, n1[1]))
                         r2.points[:] = r2.points + delta
                         both = fm.concatenate([r1, r2])
                         for label, merged in (("function", fm.merge_duplicate_points(both, decimals=dec)), ("container", fem.MeshContainer([r1, r2], merge=True, decimals=dec))):
